@@ -4,15 +4,21 @@ CONSTANTS MaxPath, EmitVectors
 VARIABLES stage, cfg
 vars == <<stage, cfg>>
 NameSets == { <<1>>, <<1, 2>>, <<2, 1>>, <<1, 2, 3>>, <<2, 3, 1>>, <<101>>, <<101, 102>> }
-Init == stage = "start" /\ cfg = [from |-> "ns", names |-> <<1>>, path |-> << >>, n |-> 2, t |-> 3]
+Init == stage = "start" /\ cfg = [from |-> "ns", names |-> <<1>>, path |-> << >>, n |-> 2, t |-> 3, ishuf |-> FALSE, trev |-> FALSE]
 PickStart == /\ stage = "start"
-             /\ \E r \in {"ns", "na"}, nm \in NameSets, n \in 1..3, t \in 2..4 :
-                    cfg' = [cfg EXCEPT !.from = r, !.names = nm, !.n = n, !.t = t]
+             /\ \E r \in {"ns", "na"}, nm \in NameSets, n \in 1..3, t \in 2..4, ish \in BOOLEAN, tr \in BOOLEAN :
+                    \* instance labels in non-ascending order / time labels in descending order: order of
+                    \* appearance is what must be preserved
+                    /\ (ish => n >= 2) /\ (tr => r = "ns")
+                    /\ cfg' = [cfg EXCEPT !.from = r, !.names = nm, !.n = n, !.t = t, !.ishuf = ish, !.trev = tr]
              /\ stage' = "path"
 Cur == IF Len(cfg.path) = 0 THEN cfg.from ELSE cfg.path[Len(cfg.path)]
 Extend == /\ stage = "path" /\ Len(cfg.path) < MaxPath
           /\ \E to \in {"ns", "na", "np3", "mi", "long", "t2"} :
                  /\ <<Cur, to>> \in Edges /\ (to = "t2" => Len(cfg.names) = 1)
+                 \* the long table is keyed by identifiers (rows are records): order of appearance of
+                 \* unsorted instance / time labels is only claimed for the other representations
+                 /\ (to = "long" => (~cfg.ishuf /\ ~cfg.trev))
                  /\ cfg' = [cfg EXCEPT !.path = Append(@, to)]
           /\ UNCHANGED stage
 Finish == stage = "path" /\ Len(cfg.path) > 0 /\ stage' = "done" /\ UNCHANGED cfg
@@ -35,4 +41,9 @@ Inv_LongSortsByIdentifier ==
     (Done /\ Len(cfg.path) = 2 /\ cfg.path = <<"long", "ns">>) =>
         \A j \in 1..(Len(cfg.names) - 1) : cfg.names[E.order[j]] < cfg.names[E.order[j + 1]]
 Emit == (Done /\ EmitVectors) => PrintT(ToJson([cfg |-> cfg, exp |-> E]))
+\* all 2x2 and 3x1 cell-type matrices for the nestedness predicates (emitted once, from the initial state)
+Mats == [1..2 -> [1..2 -> BOOLEAN]] \cup [1..3 -> [1..1 -> BOOLEAN]]
+EmitMats == (stage = "start" /\ EmitVectors) =>
+               \A m \in Mats : PrintT(ToJson([mat |-> m, cols |-> ColumnsNested(m), frame |-> FrameNested(m)]))
+Inv_FrameNestedIffSomeColumn == \A m \in Mats : FrameNested(m) = (\E j \in DOMAIN m[1] : ColumnsNested(m)[j])
 =============================================================================
